@@ -134,6 +134,7 @@ const (
 	oRDWR   = 2
 	oCREATE = 0x40
 	oTRUNC  = 0x200
+	oEXCL   = 0x80
 )
 
 func regKernel() {
@@ -154,6 +155,9 @@ func regKernel() {
 		flag := int(s.cint(a[1]))
 		k := s.k()
 		ino, ok := k.dir[name]
+		if ok && flag&oCREATE != 0 && flag&oEXCL != 0 {
+			return TupleV{PtrV{}, nativeErr("io/fs.ErrExist")}
+		}
 		if !ok {
 			if flag&oCREATE == 0 {
 				return TupleV{PtrV{}, errNotExist()}
